@@ -280,15 +280,58 @@ Proof.
   rewrite IH by exact Hrest. reflexivity.
 Qed.
 
-Lemma v2g_end_run : forall h o fp (e : bool), h_v2 h = true ->
-  fold_left pstep ((if e then [RKw KEnd; nl] else []) ++ [REof]) (SNoise h o 0 0 fp) = SDone o.
+Lemma v2g_end_run : forall h o fp (e : bool),
+  fold_left pstep ((if e then [RKw KEnd; nl] else []) ++ [REof]) (SNoise h o 0 0 fp) = SDone (finalize h o).
 Proof.
-  intros h o fp e Hv.
-  assert (F : finalize h o = o) by (unfold finalize; rewrite Hv; reflexivity).
+  intros h o fp e.
   destruct e; cbn [app fold_left].
   - rewrite pstep_kw. cbn [on_tok]. unfold noise_tok. cbn [N.eqb end_tok]. rewrite pstep_nl by reflexivity.
-    unfold pstep. cbn [flags_of tok_of on_tok eof_tok]. rewrite F. reflexivity.
-  - unfold pstep. cbn [flags_of tok_of on_tok]. unfold noise_tok. cbn [N.eqb end_tok eof_tok]. rewrite F. reflexivity.
+    unfold pstep. cbn [flags_of tok_of on_tok eof_tok]. reflexivity.
+  - unfold pstep. cbn [flags_of tok_of on_tok]. unfold noise_tok. cbn [N.eqb end_tok eof_tok]. reflexivity.
+Qed.
+
+(* the end of a file without a noise block, and [Network Data], for either version *)
+Lemma v2g_end_run0 : forall h need fr ms (e : bool), h_nnoise h = -1 ->
+  fold_left pstep ((if e then [RKw KEnd; nl] else []) ++ [REof]) (SV2 h (mkv2 0 need need [] fr ms)) =
+  SDone (finalize h (v2_obj h (mkv2 0 need need [] fr ms))).
+Proof.
+  intros h need fr ms e Hn.
+  destruct e; cbn [app fold_left].
+  - rewrite pstep_kw. cbn [on_tok]. unfold v2_tok. cbn [d_left N.eqb]. unfold after_data_tok. rewrite Hn.
+    cbn [Z.leb Z.compare end_tok]. rewrite pstep_nl by reflexivity.
+    unfold pstep. cbn [flags_of tok_of on_tok eof_tok]. reflexivity.
+  - unfold pstep. cbn [flags_of tok_of on_tok]. unfold v2_tok. cbn [d_left N.eqb]. unfold after_data_tok. rewrite Hn.
+    cbn [Z.leb Z.compare end_tok eof_tok]. reflexivity.
+Qed.
+
+Lemma kw_netdata_run_any : forall h, 0 <= h_ports h <= 46340 -> 0 <= h_nfreq h ->
+  (h_ports h = 2 <-> h_order h <> None) ->
+  fold_left pstep [RKw KNetworkData; nl] (SBody h) =
+  SV2 h (mkv2 (Z.to_N (h_nfreq h)) (need_of h) (need_of h) [] [] []).
+Proof.
+  intros h [Hp0 Hp1] Hn Hord. cbn [fold_left]. rewrite pstep_kw. cbn [on_tok body_tok]. unfold after_kw.
+  replace (h_ports h =? -1) with false by (symmetry; apply Z.eqb_neq; lia).
+  rewrite andb_false_r. cbn [andb]. unfold network_data.
+  replace (h_ports h <? 0) with false by (symmetry; apply Z.ltb_ge; exact Hp0).
+  replace (h_nfreq h <? 0) with false by (symmetry; apply Z.ltb_ge; exact Hn).
+  replace (int_max_sqrt <? h_ports h) with false by (symmetry; apply Z.ltb_ge; unfold int_max_sqrt; lia).
+  assert (E : ((h_ports h =? 2) && match h_order h with None => true | Some _ => false end = false) /\
+              (negb (h_ports h =? 2) && match h_order h with None => false | Some _ => true end = false)).
+  { destruct (Z.eqb_spec (h_ports h) 2) as [E2 | E2]; destruct (h_order h) as [o |]; cbn; split; try reflexivity.
+    - exfalso. apply (proj1 Hord E2). reflexivity.
+    - exfalso. apply E2. apply (proj2 Hord). discriminate. }
+  destruct E as [E1 E2]. rewrite E1, E2.
+  apply pstep_nl. reflexivity.
+Qed.
+
+Lemma head_run_any : forall (v2 : bool) fs, Forall ofield_ok fs ->
+  fold_left pstep ([RKw KVersion; RWord (if v2 then txt_2_0 else txt_1_0) false; nl; ROption] ++ render_opts fs ++ [RNl true]) SStart =
+  SBody (opts_hdr v2 fs).
+Proof.
+  intros v2 fs Hok. rewrite fold_left_app.
+  replace (fold_left pstep [RKw KVersion; RWord (if v2 then txt_2_0 else txt_1_0) false; nl; ROption] SStart) with (SOpt (hdr0 v2))
+    by (destruct v2; reflexivity).
+  rewrite fold_left_app, opts_run by assumption. reflexivity.
 Qed.
 
 Lemma v2g_noise_start : forall h need fr ms, 0 <= h_nnoise h ->
@@ -307,13 +350,11 @@ Proof.
   intros h f (Hopts & Hkok & Hh & Hp & Hord & Hnf & Hrec & Hasc & Hnoise).
   unfold parse, v2g_stream.
   rewrite (app_assoc _ (render_opts (q_opts f))), (app_assoc _ [RNl true]).
-  rewrite <- (app_assoc [RKw KVersion; RWord txt_2_0 false; nl; ROption]).
-  rewrite fold_left_app, v2_head_run by assumption.
+  rewrite <- (app_assoc [RKw KVersion; RWord (if q_v2 f then txt_2_0 else txt_1_0) false; nl; ROption]).
+  rewrite fold_left_app, head_run_any by assumption.
   rewrite fold_left_app. unfold q_hdr in Hh.
-  pose proof (kw_lines_run (q_kws f) _ (SBody (opts_hdr true (q_opts f))) (or_introl eq_refl) Hkok) as Hrun. rewrite Hh in Hrun.
-  assert (Hv : h_v2 h = true).
-  { rewrite (kws_run_v2 _ _ _ Hh). pose proof (opts_hdr_shape true (q_opts f)) as S. rewrite S. reflexivity. }
-  rewrite fold_left_app, (netdata_from _ _ Hrun), kw_netdata_run; try assumption; try lia.
+  pose proof (kw_lines_run (q_kws f) _ (SBody (opts_hdr (q_v2 f) (q_opts f))) (or_introl eq_refl) Hkok) as Hrun. rewrite Hh in Hrun.
+  rewrite fold_left_app, (netdata_from _ _ Hrun), kw_netdata_run_any; try assumption; try lia.
   change (need_of h) with (h_need h). rewrite Hnf.
   replace (Z.to_N (Z.of_nat (length (q_records f)))) with (N.of_nat (length (q_records f)) + 0)%N by lia.
   rewrite fold_left_app, v2_records_run.
@@ -322,11 +363,11 @@ Proof.
       rewrite <- app_assoc, fold_left_app, v2g_noise_start by exact En.
       rewrite Hnn. replace (Z.to_N (Z.of_nat (length (q_noise f)))) with (N.of_nat (length (q_noise f)) + 0)%N by lia.
       rewrite fold_left_app, noise_records_run by exact Hnok.
-      rewrite v2g_end_run by exact Hv. cbn [pfinish]. unfold v2_obj, v2g_result. cbn [d_freqs d_mats].
-      rewrite !app_nil_r, <- !map_rev, !rev_involutive. rewrite Hv. reflexivity.
-    + cbn [app]. rewrite v2_end_run; try assumption.
+      rewrite v2g_end_run. cbn [pfinish]. unfold v2_obj, v2g_result. cbn [d_freqs d_mats].
+      rewrite !app_nil_r, <- !map_rev, !rev_involutive. reflexivity.
+    + cbn [app]. rewrite v2g_end_run0.
       * cbn [pfinish]. unfold v2_obj, v2g_result. cbn [d_freqs d_mats].
-        rewrite !app_nil_r, <- !map_rev, !rev_involutive. rewrite Hv. reflexivity.
+        rewrite !app_nil_r, <- !map_rev, !rev_involutive. reflexivity.
       * apply Z.leb_gt in En.
         (* the loop only stores values >= 0 in number_of_noise_frequencies, so "< 0" is the initial -1 *)
         assert (G : forall ks h0 h1, kws_run h0 ks = Some h1 -> (h_nnoise h0 = -1 \/ 0 <= h_nnoise h0) -> (h_nnoise h1 = -1 \/ 0 <= h_nnoise h1)).
@@ -338,7 +379,7 @@ Proof.
           - destruct (i_val n <? 0) eqn:Q; [discriminate |]. injection E as <-. right. cbn. apply Z.ltb_ge. exact Q.
           - destruct (h_ports h0 <? 0); [discriminate |]. destruct (h_ref h0); [discriminate |]. injection E as <-. exact I. }
         destruct (G _ _ _ Hh) as [E | E]; [| exact E | lia].
-        left. pose proof (opts_hdr_shape true (q_opts f)) as S. rewrite S. reflexivity.
+        left. pose proof (opts_hdr_shape (q_v2 f) (q_opts f)) as S. rewrite S. reflexivity.
   - replace (h_need h - 1)%nat with (h_need h - 1)%nat by reflexivity.
     eapply Forall_impl'; [| exact Hrec]. intros r (A & N & B & C). repeat split; try assumption. lia.
   - unfold h_need. lia.
@@ -348,13 +389,13 @@ Qed.
 (* ---- corollaries ------------------------------------------------------------------------------------------- *)
 (* kw_order_load: the same file with its keyword lines in another accepted order loads to the same object *)
 Theorem kw_order_load_lemma : forall h1 h2 f1 f2, v2g_wf h1 f1 -> v2g_wf h2 f2 ->
-  q_opts f1 = q_opts f2 -> q_records f1 = q_records f2 ->
+  q_v2 f1 = q_v2 f2 -> q_opts f1 = q_opts f2 -> q_records f1 = q_records f2 ->
   Permutation (q_kws f1) (q_kws f2) -> NoDup (map kw_kind (filter not_info (q_kws f1))) ->
   h1 = h2 /\ parse (v2g_stream h1 f1) = parse (v2g_stream h2 f2) /\ parse (v2g_stream h1 f1) = Ok (v2g_result h1 f1).
 Proof.
-  intros h1 h2 f1 f2 W1 W2 Eo Er HP Hnd.
+  intros h1 h2 f1 f2 W1 W2 Ev Eo Er HP Hnd.
   assert (E : h1 = h2).
-  { destruct W1 as (_ & _ & R1 & _), W2 as (_ & _ & R2 & _). unfold q_hdr in *. rewrite Eo in R1.
+  { destruct W1 as (_ & _ & R1 & _), W2 as (_ & _ & R2 & _). unfold q_hdr in *. rewrite Eo, Ev in R1.
     exact (kw_order_invariance_lemma _ _ _ _ _ HP Hnd R1 R2). }
   split; [exact E |]. rewrite (v2g_load_lemma _ _ W1), (v2g_load_lemma _ _ W2). split; [| reflexivity].
   subst h2. unfold v2g_result. rewrite Er. reflexivity.
@@ -402,9 +443,9 @@ Theorem noise_block_skipped_lemma : forall h f, v2g_wf h f ->
 Proof.
   intros h f W. pose proof W as (Hopts & Hkok & Hh & Hp & Hord & Hnf & Hrec & Hasc & Hnoise).
   assert (W' : v2g_wf (set_nnoise h (-1)) (drop_noise f)).
-  { unfold v2g_wf, drop_noise, q_hdr. cbn [q_opts q_kws q_records q_noise q_end].
-    pose proof (opts_hdr_shape true (q_opts f)) as S.
-    assert (E0 : set_nnoise (opts_hdr true (q_opts f)) (-1) = opts_hdr true (q_opts f)) by (rewrite S; reflexivity).
+  { unfold v2g_wf, drop_noise, q_hdr. cbn [q_v2 q_opts q_kws q_records q_noise q_end].
+    pose proof (opts_hdr_shape (q_v2 f) (q_opts f)) as S.
+    assert (E0 : set_nnoise (opts_hdr (q_v2 f) (q_opts f)) (-1) = opts_hdr (q_v2 f) (q_opts f)) by (rewrite S; reflexivity).
     split; [exact Hopts |]. split; [rewrite <- E0; apply (kws_ok_drop_noise _ _ h); assumption |].
     split; [rewrite <- E0; apply kws_run_drop_noise; exact Hh |].
     cbn [set_nnoise h_ports h_order h_nfreq h_mult h_nnoise Z.leb Z.compare]. unfold h_need in *.
